@@ -125,6 +125,7 @@ struct GenOpts {
     bool allow_threads = true;
     bool dup_heavy = false;  ///< C11: more and longer duplicate runs
     bool unsigned_only = false;
+    bool pow2_sizes = false;       ///< 1 array in 30 has exactly 2^k - 1, 2^k or 2^k + 1 keys, k = 10..19 (block-wise copy / chunk arithmetic edges)
     bool ef_bimodal = false;       ///< Elias-Fano: about 1 case in 250: >= 10^5 minimal segments packed into a tiny part of a huge key space (select long-superblock path)
     bool allow_giant = false;      ///< about 1 case in 400: n around / above 2^24 built from <= 300 distinct keys with huge duplicate runs (ranks > 2^24)
     size_t span_multiple_edge = 0; ///< Bucketing: 1/4 of the arrays end so that (last - first) is m*M + d, d in {-1,0,+1}, M = this value
@@ -285,6 +286,12 @@ std::vector<K> gen_keys(TapeReader &t, const GenOpts &o, KeyMeta &meta) {
     if (o.max_n > 200000 && o.size_hint >= 97 && t.chance(1, 10)) {
         target = (size_t(1) << 20) + t.below(7 * (size_t(1) << 20));
         meta.size_class = "huge";
+        cls = 4;
+    }
+    if (o.pow2_sizes && t.chance(1, 30)) {
+        unsigned k = 10 + (unsigned) t.below(10);
+        target = (size_t(1) << k) + t.below(3) - 1;
+        meta.size_class = "pow2_size";
         cls = 4;
     }
     target = std::min(target, o.max_n);
